@@ -73,6 +73,7 @@ class Outcome:
         self.brk: list[State] = []
         self.ret: list[tuple[State, Any]] = []
         self.exc: list[State] = []
+        self.cont: list[State] = []  # `continue`: the end of the current iteration
 
 
 class SignInterp:
@@ -268,6 +269,12 @@ class SignInterp:
     # ------------------------------------------------------------------ calls
     def call(self, e: ast.Call, st: State):
         f = e.func
+        if isinstance(f, ast.Name) and self.fn is not None:
+            # a local bound once to a lambda / functools.partial (`try_send = functools.partial(_send_noblock, sock, buffers)`)
+            from .buffers import through_local
+            f2 = through_local(self.fn, f)
+            if isinstance(f2, ast.Lambda) or (isinstance(f2, ast.Call) and (dotted(f2.func) or "").split(".")[-1] == "partial"):
+                f = f2
         # a callback written as a zero-argument lambda or a functools.partial: call what it wraps
         if isinstance(f, ast.Lambda) and not e.args and not e.keywords and not f.args.args:
             return self.ev(f.body, st)
@@ -410,6 +417,7 @@ class SignInterp:
                 out.brk += r.brk
                 out.ret += r.ret
                 out.exc += r.exc
+                out.cont += r.cont
             cur = self._dedupe(nxt)
         out.normal = cur
         return out
@@ -489,11 +497,15 @@ class SignInterp:
                 out.brk += r.brk
                 out.ret += r.ret
                 out.exc += r.exc
+                out.cont += r.cont
             return out
         if isinstance(n, ast.While):
             return self.loop(n, st)
         if isinstance(n, ast.Break):
             out.brk = [st]
+            return out
+        if isinstance(n, ast.Continue):
+            out.cont = [st]
             return out
         if isinstance(n, ast.Return):
             if n.value is None:
@@ -524,6 +536,7 @@ class SignInterp:
                 r.normal = r2.normal
                 r.brk += r2.brk
                 r.ret += r2.ret
+                r.cont += r2.cont
             if n.finalbody:
                 r3 = self.block(n.finalbody, r.normal)
                 r.normal = r3.normal
@@ -558,7 +571,7 @@ class SignInterp:
                 for b in r.brk:
                     b.progress = entry_progress or b.progress
                     out.normal.append(b)
-                for e in r.normal:
+                for e in r.normal + r.cont:
                     if not e.progress:
                         self.no_progress.append((n, s0))
                     else:
